@@ -26,7 +26,7 @@ ASSUMPTIONS = [
     'strings: ASCII and non-ASCII (2-, 3-, 4-byte UTF-8) titles, file names and paths',
     'wall clock frozen by monkeypatching datetime in io.sqw._models/_build',
 ]
-REQUIRED_CLASSES = ['non_ascii_strings', 'file_decoded', 'perm_identical', 'byteorder_big', 'byteorder_little', 'sink_path', 'sink_bytes', 'sink_path_preexisting_longer_file', 'dnd_singleton_axis', 'chunk_and_pixels_above_2_16', 'multi_chunk_write']
+REQUIRED_CLASSES = ['masked_pixel_data', 'non_ascii_strings', 'file_decoded', 'perm_identical', 'byteorder_big', 'byteorder_little', 'sink_path', 'sink_bytes', 'sink_path_preexisting_longer_file', 'dnd_singleton_axis', 'chunk_and_pixels_above_2_16', 'multi_chunk_write']
 BOUND = {
     'quick': 'all 326 programs x 3 byte orders x 2 sinks x 2 chunks at 7 pixels; (n, chunk) grid up to 20000 pixels',
     'thorough': 'same plus 100000 pixels and chunk 100000, runs up to 20, strings up to 70000',
@@ -72,6 +72,11 @@ def cases(tier):
     for runs in (1, 2, 20):
         for bo in ('little', 'big'):
             out.append({'kind': 'grid', 'n_pixels': 13, 'chunk': 4, 'byteorder': bo, 'sink': 'bytes', 'runs': runs})
+    # pixel data carrying masks: chunk sizes around the number of unmasked pixels
+    for n, k in ((12, 3), (12, 1), (13, 6), (12, 12)):
+        for ch in (1, 2, 4, 5, 7, 12, 8192):
+            for bo in ('little', 'big'):
+                out.append({'kind': 'grid', 'n_pixels': n, 'chunk': ch, 'byteorder': bo, 'sink': 'bytes', 'runs': 1, 'masked': k})
     lens = [0, 1, 6, 255, 70000] if tier == 'thorough' else [0, 1, 6, 255, 5000]
     for tl in lens:
         for pl in lens:
@@ -187,7 +192,20 @@ def run_case(case, rec):
     elif kind == 'grid':
         n = case['n_pixels']
         nb = tuple(case.get('n_bins', (2, 2, 2, 2)))
-        data, _ = sq.write_file(sq.OPS, byteorder=case['byteorder'], sink=case['sink'], chunk=case['chunk'], n_pixels=n, runs=case['runs'], n_bins=nb)
+        extra = {}
+        if case.get('masked'):
+            import numpy as np
+            import scipp as sc
+
+            pixd = sq.pixel_data(n)
+            m = np.zeros(n, dtype=bool)
+            m[np.arange(case['masked']) * 2 % n] = True
+            if case['masked'] >= n:
+                m[:] = True
+            pixd.masks['bad'] = sc.array(dims=['obs'], values=m)
+            extra['pix'] = pixd
+            rec.cls('masked_pixel_data')
+        data, _ = sq.write_file(sq.OPS, byteorder=case['byteorder'], sink=case['sink'], chunk=case['chunk'], n_pixels=n, runs=case['runs'], n_bins=nb, **extra)
         check_file(rec, case, data, sq.OPS, byteorder=case['byteorder'], n_pixels=n, n_bins=nb)
         if 1 in nb:
             rec.cls('dnd_singleton_axis')
